@@ -118,11 +118,15 @@ class C01(Check):
 
     def install(self, ctx):
         SM.install(ctx)
+        ctx.extern_handlers["os.environ.get"] = lambda I, a, k, n: (a[1] if len(a) > 1 else V.NONE)
 
     def contracts(self):
         cs = [SendMessageC01Reg(False, False, id_mode="given"),
               SendMessageC01Reg(False, False, id_mode="uuid"),
               SendMessageC01Reg(True, True, id_mode="given")]
+        # the id a waiter compares is the WIRE id: decoding an incoming response / error keeps id value and JSON type
+        from checks import C02
+        cs += [C02.ParseEmitted("response"), C02.ParseEmitted("error")]
         if self.tier == "thorough":       # every combination of token / callback / id source
             cs += [SendMessageC01Reg(True, False, id_mode="given"), SendMessageC01Reg(False, True, id_mode="given"),
                    SendMessageC01Reg(True, True, id_mode="uuid"), SendMessageC01Reg(True, False, id_mode="uuid"),
